@@ -261,6 +261,9 @@ fn choose_key(ctx: &Ctx, keys: &[&'static str]) -> Option<&'static str> {
 }
 
 fn finish(mut out: Outcome, ctx: &Ctx, keys: &[&'static str]) -> Outcome {
+    if let (Some(f), false) = (&mut out.failure, keys.is_empty()) {
+        f.push_str(&format!(" [case matches the input-side predicate(s): {}]", keys.join(", ")));
+    }
     if let Some(k) = choose_key(ctx, keys) {
         out = out.known(k);
     }
